@@ -3195,9 +3195,10 @@ def where(condition: ArrayOrScalar,
 
     # {{{ find dtype
 
-    x_dtype = x.dtype if isinstance(x, Array) else np.dtype(type(x))
-    y_dtype = y.dtype if isinstance(y, Array) else np.dtype(type(y))
-    dtype = np.promote_types(x_dtype, y_dtype)
+    # Python scalars promote weakly, as in numpy.where (and as in the
+    # arithmetic operators): where(c, int8_array, 3) is an int8 array.
+    dtype = np.result_type(*[arg.dtype if isinstance(arg, Array) else arg
+                             for arg in (x, y)])
 
     # }}}
 
